@@ -172,8 +172,8 @@ def answerHistory (ws : List String) : String :=
     let model := run c.input c.orc
     let tags := sortS (dedupS (failTags c.input c.orc c.out))
     -- every failing instance carries the signature of a recorded finding (and no other clause fails)
-    let onlySigned := !tags.isEmpty && !tags.contains "other" &&
-      failed.all (fun f => ["expired_reported", "stale_forgotten", "forget_only_reported"].contains f)
+    let onlySigned := !tags.isEmpty && tags.all (· == "checkall-invalid") &&
+      failed.all (fun f => ["expired_reported", "stale_forgotten"].contains f)
     if !failed.isEmpty && !(onlySigned && !sameAll model c.out) then
       "propfail " ++ ",".intercalate failed ++ " " ++ showArms (arms c) ++
         (if tags.isEmpty then "" else " sig=" ++ ",".intercalate tags)
